@@ -75,6 +75,11 @@ theorem selection_after_concurrent_adds (U : Bytes → Tx) (cfg : Config) (txs t
 /-- (regenerated fact) both index updates of AddTx sit inside one `mutTxOperation` critical section -/
 theorem addTx_is_one_critical_section : Facts.addTxIndexUpdatesAtomic = true := Facts.addTx_updates_atomic
 
+/-- (regenerated fact) every pass of the eviction removes from both indexes inside one `mutTxOperation` critical section: eviction
+    steps interleave with AddTx / RemoveTxByHash only as whole sections, hence the sequential index-agreement theorems (C05)
+    apply to every concurrent history of adds, removals and evictions at section granularity -/
+theorem eviction_removals_are_one_critical_section : Facts.evictionRemovalsUnderTxOperationLock = true := Facts.eviction_removals_atomic
+
 /-- (regenerated fact) CountTx / NumBytes / CountSenders are updated iff the chunk-locked map operation reported a change:
     whatever the interleaving, at quiescence the counters equal what the maps hold -/
 theorem counters_are_paired_with_map_updates : (Facts.hashIndexCountersPaired && Facts.senderCounterPaired) = true :=
